@@ -9,16 +9,20 @@
 (* real select makes the same choices (and logs what happened in any case).      *)
 EXTENDS Integers, Sequences, FiniteSets, TLC, Json, IOUtils
 
-CONSTANTS Notifiers, Keys, MaxCalls, MaxPubs
+CONSTANTS Notifiers, Keys, MaxCalls, MaxPubs,
+          InFlight      \* TRUE: publications are held inside Notify of one subscriber (pubstart .. pubend)
 TwoQueues == TRUE
 SkipAfterDelete == TRUE
+SplitPub == TRUE
 
-VARIABLES subs, qs, qu, fired, calls, parked, npub, last, pre, ops
-gvars == <<subs, qs, qu, fired, calls, parked, npub, last, pre, ops>>
+VARIABLES subs, qs, qu, fired, calls, parked, npub, infl, last, pre, ops
+gvars == <<subs, qs, qu, fired, calls, parked, npub, infl, last, pre, ops>>
 
-P == INSTANCE PubSub WITH reg <- {}, ov <- {}, out <- <<>>, res <- last, clock <- 0
+P == INSTANCE PubSub WITH reg <- {}, ov <- {}, out <- <<>>, res <- last, clock <- 0,
+                          nsub <- <<>>, fly <- [p |-> -1]
 
 MCNotifiers == {1, 2}
+MCNotifiers3 == {1, 2, 3}
 MCKeys == {0, 1}
 MCKeys3 == {0, 1, 2}
 
@@ -28,10 +32,16 @@ It(n, k) == [n |-> n, k |-> k]
 WithSub(sb, it) == [sb EXCEPT ![it.k] = Append(@, it.n)]
 WithUnsub(sb, it) == [sb EXCEPT ![it.k] = P!RemoveFrom(@, it.n)]
 
-GInit == /\ subs = [k \in Keys |-> <<>>] /\ qs = <<>> /\ qu = <<>> /\ fired = {} /\ calls = <<>>
-         /\ parked = FALSE /\ npub = 0 /\ last = [op |-> "init"] /\ pre = <<>> /\ ops = <<>>
+NoFl == [p |-> -1]
 
+GInit == /\ subs = [k \in Keys |-> <<>>] /\ qs = <<>> /\ qu = <<>> /\ fired = {} /\ calls = <<>>
+         /\ parked = FALSE /\ npub = 0 /\ infl = NoFl /\ last = [op |-> "init"] /\ pre = <<>> /\ ops = <<>>
+
+\* In-flight mode is a focused family: notifiers are introduced in order (they are symmetric), every
+\* subscription is applied before the publication starts, error channels fire only while it is held.
+Used == {calls[i][1] : i \in DOMAIN calls}
 GSub(n, k) ==
+  /\ InFlight => (infl = NoFl /\ npub = 0 /\ \A m \in Notifiers : m < n => m \in Used)
   /\ Len(calls) < MaxCalls
   /\ calls' = Append(calls, <<n, k>>)
   /\ qu' = IF n \in fired THEN Append(qu, It(n, k)) ELSE qu
@@ -39,9 +49,10 @@ GSub(n, k) ==
      THEN qs' = Append(qs, It(n, k)) /\ subs' = subs /\ parked' = parked
      ELSE qs' = qs /\ subs' = WithSub(subs, It(n, k)) /\ parked' = TRUE     \* idle: taken at once
   /\ last' = [op |-> "sub", n |-> n, k |-> k]
-  /\ UNCHANGED <<fired, npub>>
+  /\ UNCHANGED <<fired, npub, infl>>
 
 GFire(n) ==
+  /\ InFlight => infl # NoFl
   /\ n \notin fired
   /\ fired' = fired \cup {n}
   /\ LET mine == SelectSeq(calls, LAMBDA c : c[1] = n)
@@ -51,7 +62,7 @@ GFire(n) ==
         ELSE \E i \in DOMAIN q1 :                                           \* idle: one is taken at once
                qu' = P!DropAt(q1, i) /\ subs' = WithUnsub(subs, q1[i]) /\ parked' = TRUE
   /\ last' = [op |-> "fire", n |-> n]
-  /\ UNCHANGED <<qs, calls, npub>>
+  /\ UNCHANGED <<qs, calls, npub, infl>>
 
 GStep ==
   /\ parked
@@ -64,27 +75,50 @@ GStep ==
      \/ \E i \in DOMAIN qu :
         /\ subs' = WithUnsub(subs, qu[i]) /\ qu' = P!DropAt(qu, i) /\ qs' = qs
         /\ parked' = TRUE /\ last' = [op |-> "step", want |-> "unsub"]
-  /\ UNCHANGED <<fired, calls, npub>>
+  /\ UNCHANGED <<fired, calls, npub, infl>>
+
+\* a publication held inside Notify of its i-th delivery (the first one to that notifier on that key)
+GPubStart(p, i) ==
+  /\ InFlight /\ infl = NoFl /\ npub < MaxPubs /\ qs = <<>> /\ Len(calls) = MaxCalls
+  /\ LET D == P!Deliveries(subs, p)
+     IN /\ i \in DOMAIN D /\ \A j \in 1..(i - 1) : D[j] # D[i]
+        /\ infl' = [p |-> p, gn |-> D[i][1], gk |-> D[i][2]]
+        /\ last' = [op |-> "pubstart", p |-> p, gn |-> D[i][1], gk |-> D[i][2]]
+  /\ npub' = npub + 1
+  /\ UNCHANGED <<subs, qs, qu, fired, calls, parked>>
+
+GPubEnd ==
+  /\ infl # NoFl
+  /\ infl' = NoFl /\ last' = [op |-> "pubend"]
+  /\ UNCHANGED <<subs, qs, qu, fired, calls, parked, npub>>
 
 GPub(p) ==
+  /\ ~InFlight /\ infl = NoFl
   /\ npub < MaxPubs
   /\ npub' = npub + 1
   /\ last' = [op |-> "pub", p |-> p]
-  /\ UNCHANGED <<subs, qs, qu, fired, calls, parked>>
+  /\ UNCHANGED <<subs, qs, qu, fired, calls, parked, infl>>
 
 GNext == /\ Len(ops) < Depth
          /\ \/ \E n \in Notifiers, k \in Keys : GSub(n, k)
             \/ \E n \in Notifiers : GFire(n)
             \/ GStep
             \/ \E p \in Keys : GPub(p)
+            \/ \E p \in Keys, i \in 1..(2 * MaxCalls) : GPubStart(p, i)
+            \/ GPubEnd
          /\ ops' = Append(ops, last')
-         /\ pre' = <<subs, qs, qu, fired, parked>>
+         /\ pre' = <<subs, qs, qu, fired, parked, infl>>
 
 GSpec == GInit /\ [][GNext]_gvars
 
 \* one history per (source state, operation [, choice]) edge; the number of publications so far is left out
-EdgeView == <<subs, qs, qu, fired, calls, parked, pre, last>>
+EdgeView == <<subs, qs, qu, fired, calls, parked, infl, pre, last>>
+
+\* in-flight mode: the way the subscriptions were queued and applied before the publication is irrelevant
+FlightView == <<subs, qs, qu, fired, parked, infl, npub, last>>
 
 EmitAll  == ops # <<>> => PrintT(<<"SCN", ToJson(ops)>>)
+\* in-flight mode: only histories that end with the held publication being released
+EmitFlight == (ops # <<>> /\ last.op = "pubend") => PrintT(<<"SCN", ToJson(ops)>>)
 EmitFull == Len(ops) = Depth => PrintT(<<"SCN", ToJson(ops)>>)
 =============================================================================
